@@ -11,13 +11,17 @@ faults: `i` = command i raises an Exception, `ib` = command i raises a BaseExcep
 rb: the loop of `Transaction._rollback` - all = every backend is rolled back, a BaseException is re-raised at the end (as in
 /repo since 12f0cbb; what the harness asks for), head = the OLD loop, `except Exception` only (kept for the record).
 
-body commands: set.b.k.v.ttl  incr.b.k  get.b.k  del.b.k  adv.dt  raise  setmany.b.ttl.k:v+k:v+...  delmany.b.k+k+...
+body commands: set.b.k.v.ttl  incr.b.k  incr.b.k.ttl  get.b.k  del.b.k  adv.dt  raise  setmany.b.ttl.k:v+k:v+...  delmany.b.k+k+...
+               expire.b.k.ttl  setx.b.k.v.ttl (set(..., exist=True))  setnx.b.k.v.ttl (set(..., exist=False))
 (`-` = no ttl / no deadline).  `flocks`: lock keys held by a foreign owner for ever.  `hlocks`: lock keys held by
 contending holders (other open transactions) when the block starts; `rel=i.b.lk`: the holder of (b, lk) releases it
 just before backend command `i`; every holder has finished by the time the remaining locks are reported.
 
 Answer (one line):
   exc=<none|fault:i|bfault:i|locked|body> ctx=<none|some> (`~` = empty list) trace=<ev;...> outs=<r,...> locks=<b.lk.m|f.dl,...> data=<b.k=v,...> probe=<ok|lost>
+  now=<ticks> store=<b.k=v@dl,...>
+`data`: live values after the probe write; `store`: the WHOLE live entries (value and deadline, `-` = none) when the block has
+been left, before the probe.
 -/
 open CashewsVerif CashewsVerif.Proto CashewsVerif.TxFault
 
@@ -36,7 +40,11 @@ def parseMode? : String → Option Mode
 def parseBody? (s : String) : Option BodyCmd :=
   match s.splitOn "." with
   | ["set", b, k, v, ttl] => do pure (.set (← b.toNat?) (← k.toNat?) (← v.toInt?) (← parseOptNat? ttl))
-  | ["incr", b, k] => do pure (.incr (← b.toNat?) (← k.toNat?))
+  | ["incr", b, k] => do pure (.incr (← b.toNat?) (← k.toNat?) none)
+  | ["incr", b, k, ttl] => do pure (.incr (← b.toNat?) (← k.toNat?) (← parseOptNat? ttl))
+  | ["expire", b, k, ttl] => do pure (.expire (← b.toNat?) (← k.toNat?) (← ttl.toNat?))
+  | ["setx", b, k, v, ttl] => do pure (.setIf (← b.toNat?) (← k.toNat?) (← v.toInt?) (← parseOptNat? ttl) true)
+  | ["setnx", b, k, v, ttl] => do pure (.setIf (← b.toNat?) (← k.toNat?) (← v.toInt?) (← parseOptNat? ttl) false)
   | ["get", b, k] => do pure (.get (← b.toNat?) (← k.toNat?))
   | ["del", b, k] => do pure (.delete (← b.toNat?) (← k.toNat?))
   | ["adv", dt] => do pure (.adv (← dt.toNat?))
@@ -98,6 +106,7 @@ def showCmd : BCmd → String
   | .unlock lk => s!"unlock.{lk}"
   | .deleteMany ks => "delmany." ++ "+".intercalate (sortStrings (ks.map toString))
   | .setMany kvs ttl => s!"setmany.{showOptNat ttl}." ++ "+".intercalate (sortStrings (kvs.map showKV))
+  | .has k => s!"exists.{k}"
 
 def showEv (e : Ev) : String := s!"{e.b}.{showCmd e.cmd}" ++ (if e.failed then "!" else "")
 
@@ -145,12 +154,14 @@ def runLine (ws : List String) : Option String := do
   let outs := dash (w1.outs.map showReply) ","
   let locks := dash (sortStrings (w1.locks.map fun (p, e) =>
     s!"{p.1}.{p.2}.{if e.mine then "m" else "f"}.{showOptNat e.dl}")) ","
+  let store := dash (sortStrings (w1.data.filterMap fun (p, _) =>
+    (entryView w1 p.1 p.2).map fun e => s!"{p.1}.{p.2}={e.val}@{showOptNat e.dl}")) ","
   -- the probe: a facade write right after the block, with fault injection switched off
   let (_, w2) := facadeSet { cfg with fails := fun _ => false } probe.1 probe.2.1 probe.2.2 w1
   let pr := if dataView w2 probe.1 probe.2.1 = some probe.2.2 then "ok" else "lost"
   let dat := dash (sortStrings (w2.data.filterMap fun (p, _) =>
     (dataView w2 p.1 p.2).map fun v => s!"{p.1}.{p.2}={v}")) ","
-  pure s!"exc={exc} ctx={ctx} trace={trace} outs={outs} locks={locks} data={dat} probe={pr} now={w1.now}"
+  pure s!"exc={exc} ctx={ctx} trace={trace} outs={outs} locks={locks} data={dat} probe={pr} now={w1.now} store={store}"
 
 def step (_ : Unit) (line : String) : Unit × String :=
   match words line with
